@@ -41,9 +41,11 @@ int libwifi_parse_probe_req(struct libwifi_sta *sta, struct libwifi_frame *frame
     }
 
     if (frame->frame_control.flags.ordered) {
+        memcpy(sta->receiver, frame->header.mgmt_ordered.addr1, 6);
         memcpy(sta->transmitter, frame->header.mgmt_ordered.addr2, 6);
         memcpy(sta->bssid, frame->header.mgmt_ordered.addr3, 6);
     } else {
+        memcpy(sta->receiver, frame->header.mgmt_unordered.addr1, 6);
         memcpy(sta->transmitter, frame->header.mgmt_unordered.addr2, 6);
         memcpy(sta->bssid, frame->header.mgmt_unordered.addr3, 6);
     }
